@@ -218,7 +218,8 @@ def run_case(case):
         arbs = []
         regs = [(0, ADR_W)]
     nops = rng.randint(20, 50)
-    bench = Bench(top, cap=nm * nops * 40 + 500)
+    hang_bound = nm * nops * ((timeout or 0) + 12) + 200
+    bench = Bench(top, cap=nm * nops * 40 + 500 + hang_bound)
     mags, sags = [], []
     seqs = [0] * nm
     for mi, m in enumerate(masters):
@@ -242,7 +243,9 @@ def run_case(case):
             if not ops[-1]["hold"] and ops[-1]["gap"] == 0 and style == "blocks":
                 ops[-1]["gap"] = 1          # a block ends by dropping cyc for a cycle
         ops[0]["gap"] = rng.choice([0, 0, 1, 2, 3])      # simultaneous / staggered starts
-        mags.append(bench.add(WBMaster(m, ops, "m%d" % mi, max_wait=None)))
+        # "each request receives exactly one termination": with every address mapped to a responsive slave, or a timeout configured,
+        # a request waits at most for the other masters' requests (each bounded by slave latency / timeout); far beyond that it hangs
+        mags.append(bench.add(WBMaster(m, ops, "m%d" % mi, max_wait=hang_bound)))
     for si, s in enumerate(slaves):
         def tagger(slv, adr, si=si):
             return (si << 28) | ((len(slv.log) & 0xfff) << 16) | (adr & 0xffff)
@@ -359,7 +362,7 @@ def run_shard(shard):
         col.ev("slave_err_terminations", r["slave_errs"])
         col.ev("sim_cycles", r["cycles"])
         col.cov("topologies", "%s/%dx%d/reg%d" % (case["kind"], case["m"], case["s"], int(case["register"])))
-        if r["capped"]:
+        if r["capped"] and not r["errs"]:
             col.inconc(case, "cycle cap reached")
         for e in r["errs"][:1]:
             col.violation("%s%s/%s" % (case["kind"], "+socmap" if case.get("socmap") else "", e["kind"]), case, "%s %dx%d register=%s: %s" % (
